@@ -104,6 +104,10 @@ def c_locale_rebuild(run, es5, pdir, fresh):
     try:
         if p.returncode != 0:
             raise RuntimeError('helper exited %d: %s' % (p.returncode, p.stderr.strip().splitlines()[-1:] or ''))
+        left = sorted(os.path.basename(x) for x in glob.glob(os.path.join(pdir, '*tab_*.py')))
+        want_files = sorted(m.rsplit('.', 1)[1] + '.py' for m in (es5.lextab, es5.yacctab))
+        if not set(want_files) <= set(left):
+            raise RuntimeError('the helper, run in a fresh process, leaves the modules %r; the parser loads %r' % (left, want_files))
         regen = es5.Parser()
         compare_views(run, 'rebuilt under LC_ALL=C vs in-memory', dict(lexer_view(regen), **parser_view(regen)),
                       dict(lexer_view(fresh), **parser_view(fresh)))
@@ -186,13 +190,30 @@ def main(run, tier):
     (run.discharged if ok else (lambda *x, **k: run.failed('names.generate_tab_names', 'E2/tables', 'names', dict(got=a),
                                                              observed=repr(a), required='stable names used by Parser and by the helper', replayed=True)))(
         'names.generate_tab_names', 'E2/tables', 'exec', 0.0)
+    # the names: the version part is that of the installed ply whenever it is known (only then do helper and parser agree on the files)
+    saved_dist = utils.ply_dist
+    try:
+        for dist in (None, '3.11', '3.8'):
+            for assumed in ('unknown', '3.10', '3.11'):
+                utils.ply_dist = None if dist is None else utils._Distribution('ply', dist)
+                got = utils.generate_tab_names('calmjs.parse.parsers.es5', _version=assumed) if assumed != 'unknown' else utils.generate_tab_names('calmjs.parse.parsers.es5')
+                ver = (dist if dist is not None else assumed).replace('.', '_')
+                want = tuple('calmjs.parse.parsers.%s_es5_py%d_ply%s' % (t, sys.version_info.major, ver) for t in ('lextab', 'yacctab'))
+                nm = 'names.generate_tab_names[installed ply %s, assumed %s]' % (dist, assumed)
+                if tuple(got) == want:
+                    run.discharged(nm, 'E2/tables', 'exec', 0.0)
+                else:
+                    run.failed(nm, 'E2/tables', 'names', dict(got=got, want=want), observed='%r, the parser loads %r' % (got, want),
+                               required='the installed ply version names the modules; an assumed version only stands in when none is installed', replayed=True)
+    finally:
+        utils.ply_dist = saved_dist
     # ---- E1: flags forwarded unchanged
     import contracts.parser_init as cp
     cs, lemmas, env = cp.build(es5)
     verify_functions(run, cs, {}, {}, tier=tier)
     import contracts.optimize as co
     ocs, _, _ = co.build(optimize)
-    verify_functions(run, ocs + co.build_all(optimize), {}, {}, tier=tier)
+    verify_functions(run, ocs + co.build_all(optimize) + co.build_validate(optimize), {}, {}, tier=tier)
     partial_first_build(run, es5, optimize, pdir, fresh)
     c_locale_rebuild(run, es5, pdir, fresh)
     # ---- bounded: differential parse under the three configurations
